@@ -3,6 +3,7 @@ package runtime
 import (
 	"encoding/csv"
 	"io"
+	"reflect"
 )
 
 // CSVOpts alter the behavior of the CSV consumer or producer.
@@ -91,6 +92,10 @@ var (
 	_ CSVReader = &csvRecordsWriter{}
 )
 
+// csvRecordType is the type of a CSV record: tables of records are copied with reflect.Copy,
+// which requires this exact element type.
+var csvRecordType = reflect.TypeOf([]string(nil))
+
 // csvRecordsWriter is an internal container to move CSV records back and forth
 type csvRecordsWriter struct {
 	i       int
@@ -98,7 +103,10 @@ type csvRecordsWriter struct {
 }
 
 func (w *csvRecordsWriter) Write(record []string) error {
-	w.records = append(w.records, record)
+	// the reader may reuse the record it hands out (csv.Reader.ReuseRecord): keep a copy
+	kept := make([]string, len(record))
+	copy(kept, record)
+	w.records = append(w.records, kept)
 
 	return nil
 }
